@@ -175,6 +175,20 @@ CLAIMED['C11'] = dict(
     note='Trusted: Lean kernel; binary floating point rounding in number_to_string and isclose (the model uses exact decimals; inexact ties are outside the '
          'universe); datetime / zoneinfo. truncate_datetime, default_timezone, ignore_nan_inequality, use_enum_value: observed only. Fixed in /repo: F9, F26, F27.',
     technique='Lean 4 proof (mutual structural induction over a similarity relation) + differential correspondence under options; monotonicity and totality by evaluation')
+_IOMODEL = ('Model = Lean port of _diff with ignore_order=True (_create_hashtable, added / removed hash sets, pairing consumption in get_other_pair, recursive diff of a pair, '
+            'iterable_item_added / removed, repetition_change, dict / set / leaf handling as in the ordered model); the pairing decisions (rough distances, cutoffs, passes, distance '
+            'cache) are an oracle: the theorems quantify over every pairing, the driver receives the pairs observed in the real run (two methods wrapped in the harness process). ')
+CLAIMED['C05'] = dict(
+    text='PARTIAL. Lean 4 theorem: for every pairing oracle (hence every cutoff_distance_for_pairs, cutoff_intersection_for_pairs, max_passes, cache_size), report_repetition setting, '
+         'threshold in [0,1], size and nesting, the ignore-order result is empty exactly when the pairing-free verdict holds (dicts key by key, lists/tuples by the set of item hashes - '
+         'and equal multiplicities with report_repetition -, sets by member hashes, leaves by type and value); corollary: the emptiness verdict is knob independent. The only property '
+         'of the item hash used is HashSound (values the diff cannot tell apart hash equally); no injectivity. ' + _IOMODEL + 'Tied to the code by comparing the complete result of '
+         'the real DeepDiff with the compiled model over shuffles, duplications, near-duplicates and edits at every depth x the knob grid. That the hash-level verdict coincides with '
+         'nested set / multiset equality of the values (needs injectivity of the hash framing, C07) is decided on the implementation against an independent reference equality.',
+    design='5/C05',
+    note='Trusted: Lean kernel; SHA-256 / DeepHash digests (HashSound is an assumption of the theorem, exercised by C12); pairing observed, not modelled. The semantic reading '
+         '(hash verdict = nested set equality) rests on evaluation. Domain: NoSpoof, NoNumAlias jointly.',
+    technique='Lean 4 proof (mutual structural induction, fold invariants) + differential correspondence with observed pairing + independent reference equality')
 NA = {}
 
 checks = []
